@@ -206,8 +206,8 @@ CFG = {
     "prop_file": "Properties/C16.v",
     "run_modules": ["Verif.C16.Run"],
     "coq_dirs": ["C16"],
-    "n": {"quick": 400, "thorough": 40000},
-    "shard": 50,
+    "n": {"quick": 320, "thorough": 40000},
+    "shard": 40,
     "level": "proof",
     "shrink": False,
     "rule": ("prog: 1..4 generated snippets (regex literals with lastIndex, tagged templates incl. write attempts and no-op "
@@ -218,7 +218,8 @@ CFG = {
              "non-trivial = program ran without a top-level error on >= 2 goroutines / an unscanned imported string or > 2 values were "
              "shared / a foreign object was offered; distinct = by hash of the case"),
     "theorem_names": ["readonly_no_race", "program_run_readonly", "race_free_shared_program", "primitive_share",
-                      "imported_race_refuted", "tmpl_redefine_race_refuted", "cross_runtime_object_rejected"],
+                      "imported_race_refuted", "tmpl_redefine_race_refuted", "cross_runtime_object_rejected",
+                      "guarded_no_race", "imported_race_free_if_locked"],
     "allowed_axioms": [],
     "trusted_base": [
         "Coq 8.16.1 kernel + vm_compute; theorems closed under the global context (no axioms)",
@@ -240,7 +241,7 @@ CFG = {
                  "interleaving of ANY number of threads; the transcribed event list of a Program run writes nothing Program-owned, so "
                  "any number of concurrent runs (also sharing ascii/unicode strings, symbols, numbers) are race-free; the faithful model "
                  "of importedString (F14) and of template-cell redefinition (C16-N1) is refuted by explicit racy schedules; foreign "
-                 "Objects are rejected. Tied to /repo on every run by (i) sequential equivalence of 2..16 concurrent runs of one Program / "
+                 "Objects are rejected; a lockset theorem shows the same importedString methods are race-free when guarded by a per-string mutex. Tied to /repo on every run by (i) sequential equivalence of 2..16 concurrent runs of one Program / "
                  "shared values with an isolated run, checked through the model's Run.v, and (ii) a -race build of the same workload: any "
                  "race report not matching a known-finding predicate is a violation."),
         "note": ("trusted: Coq kernel; the hand transcription of which Go memory each operation touches (asserted, sampled by the race "
